@@ -36,7 +36,7 @@ PROPS["C02"] = dict(
     translators=[],
     theorems=["Texel.C02.C02_pixel_test", "Texel.C02.C02_hot_closed", "Texel.C02.C02_routing", "Texel.C02.C02_routing_index",
               "Texel.C02.C02_nodup", "Texel.C02.C02_routed_nonempty"],
-    streams=["li", "li-large", "route", "route-random"],
+    streams=["li", "li-large", "route", "route-random", "snap", "model-functional-vs-reference"],
     trusted=["Model.Geom/Model.Route are hand-written mirrors of containsPoint, lineIntersects, findIntersectingQuadrants, snapClosestPoints, InsertPoint, insertCoord; "
              "tied by the li/route correspondence (exhaustive small scopes) through the verif hooks XLineIntersects, XNew, InsertCoord, XSnapInt",
              "Morton-keyed maps are modelled as sets of (x,y) pairs (justified by the C17 theorems)",
@@ -45,7 +45,7 @@ PROPS["C02"] = dict(
     level_text="First sentence: theorems for every grid, segment, parent-closed hot set and level (no bound): the pixel test is exactly 'closed segment meets half-open pixel', "
                "the descent returns exactly the hot pixels met, without repetition, in travel order, and never nothing for a polygon edge. The model is tied to pointindex by an exhaustive "
                "correspondence (all 12 005 small li cases; thorough: all quarter-lattice segments x all 512 hot subsets of a 3x3 window at three placements) and the exact oracle runs on every implementation answer. "
-               "Second sentence (non-collapsing polygons come back as the concatenation of routed edges): validated by the snap correspondence and an oracle, see C05/C18.",
+               "Second sentence (non-collapsing polygons come back as the concatenation of routed edges): decided per generated valid polygon by an oracle against the model's routed chains, plus the snap correspondence.",
     level_note="Trusted: Lean kernel; the hand-written model is tied by differential testing, not by translation; float<->int conversion at the API boundary is outside the model (ops carry the int64 coordinates).",
 )
 
@@ -163,7 +163,7 @@ PROPS["C11"] = dict(level="proof", module="Texel.Properties.C11", translators=["
 PROPS["C12"] = dict(level="proof", module="Texel.Properties.C12", translators=["skel"],
     technique="Lean 4 theorems on the paging function, the column lists and the extent bookkeeping (for every count and page size) + extracted paging skeleton + read-back of real GeoPackages written by TargetGeopackage on SQLite",
     theorems=["Texel.C12.C12_concat", "Texel.C12.C12_sizes", "Texel.C12.C12_final_flush", "Texel.C12.C12_columns", "Texel.C12.C12_extent", "Texel.C12.skeleton_matches"],
-    streams=["page"], design_ref="DESIGN.md §6 C12",
+    streams=["page", "page-multi"], design_ref="DESIGN.md §6 C12",
     trusted=["the paging loop of WriteFeatures and the row construction of writeFeatures are tied by the extracted skeleton (trgen skel) compared by decide",
              "SQLite, its rtree triggers (with the stub's ST_IsEmpty/ST_MinX.. functions registered under build tag verif), database/sql and go-spatial's gpkg package are outside the model: "
              "every written file is read back (rows, rtree_*, gpkg_contents, gpkg_geometry_columns, PRAGMA table_info) and compared",
